@@ -395,4 +395,232 @@ mod n {
             },
         );
     }
+
+    // ---- C09: n50 ------------------------------------------------------------------------------------
+    fn wcp(c_100: f32) -> WinConsProps {
+        WinConsProps { g_glwi: 0.6, g_glshwi: 0.3, u_value: Some(1.5), c_100, f_f: 0.25 }
+    }
+
+    #[test]
+    fn n_c09_n50() {
+        drive(
+            "C09.n50",
+            "N50Data::from(&EnergyProps): 2 walls each over 4 boundary kinds x in/out x multiplier {1,2} x net area {0,10}; 2 windows each over host {wall0,wall1,dangling} x construction {C=27, C=9, missing}; volume {0,250}; blower-door result {none,3.0}; C_o {16,29}",
+            |c| {
+                let vol = c.of(&[0.0f32, 250.0]);
+                let test = c.of(&[None, Some(3.0f32)]);
+                let c_o = c.of(&[16.0f32, 29.0]);
+                let mut g = globals();
+                g.vol_env_net = vol;
+                g.n_50_test_ach = test;
+                g.c_o_100 = c_o;
+                let mut p = empty_props(g);
+                p.wincons.insert(uid(0xD1), wcp(27.0));
+                p.wincons.insert(uid(0xD2), wcp(9.0));
+                let mut ws = vec![];
+                for i in 0..2u128 {
+                    let b = c.of(&BOUNDS);
+                    let tenv = c.flag();
+                    let m = c.of(&[1.0f32, 2.0]);
+                    let a = c.of(&[0.0f32, 10.0]);
+                    let w = wallp(b, Tilt::SIDE, tenv, m, a, Some(0.3), None);
+                    p.walls.insert(uid(1 + i), w.clone());
+                    ws.push(w);
+                }
+                let mut desc = vec![];
+                for i in 0..2u128 {
+                    let host = c.pick(3);
+                    let cons = c.pick(3);
+                    let (hid, hw) = match host {
+                        0 => (uid(1), Some(&ws[0])),
+                        1 => (uid(2), Some(&ws[1])),
+                        _ => (uid(0x99), None),
+                    };
+                    let mut win = winp(hid, hw, 1.5, Some(1.5), None);
+                    win.cons = match cons {
+                        0 => uid(0xD1),
+                        1 => uid(0xD2),
+                        _ => uid(0xDE),
+                    };
+                    p.windows.insert(uid(11 + i), win);
+                    desc.push(format!("win{} host={} cons={}", i, host, cons));
+                }
+                c.note(format!("vol={} test={:?} c_o={} walls={:?} {}", vol, test, c_o, ws.iter().map(|w| (w.bounds, w.is_tenv, w.multiplier, w.area_net)).collect::<Vec<_>>(), desc.join(" ")));
+                // independent oracle from the statement
+                let mut a_o = 0.0f64;
+                let mut a_h = 0.0f64;
+                let mut ch_ah = 0.0f64;
+                for (wid, w) in &p.walls {
+                    if !(w.is_tenv && w.bounds == BoundaryType::EXTERIOR) {
+                        continue;
+                    }
+                    a_o += w.multiplier as f64 * w.area_net as f64;
+                    for win in p.windows.values().filter(|x| &x.wall == wid) {
+                        let ch = p.wincons.get(&win.cons).map_or(100.0, |x| x.c_100) as f64;
+                        a_h += w.multiplier as f64 * win.area as f64;
+                        ch_ah += w.multiplier as f64 * win.area as f64 * ch;
+                    }
+                }
+                let v = vol as f64;
+                let n50_ref = if v > 0.0 { 0.629 * (c_o as f64 * a_o + ch_ah) / v } else { 0.0 };
+                let d = N50Data::from(&p);
+                c.check("C09.areas", approx64(d.walls_a, a_o, 1e-5, 1e-5) && approx64(d.windows_a, a_h, 1e-5, 1e-5) && approx64(d.windows_c_a, ch_ah, 1e-5, 1e-5), || {
+                    format!("A_o {} (want {}), A_h {} (want {}), sum C_h A_h {} (want {})", d.walls_a, a_o, d.windows_a, a_h, d.windows_c_a, ch_ah)
+                });
+                c.check("C09.n50_ref", approx64(d.n50_ref, n50_ref, 1e-4, 1e-6), || format!("n50_ref {} want {}", d.n50_ref, n50_ref));
+                c.check("C09.vol", d.vol == vol, || format!("vol {} want {}", d.vol, vol));
+                c.check("C09.c_ref", d.walls_c_ref == c_o, || format!("walls_c_ref {} want {}", d.walls_c_ref, c_o));
+                if a_h > 0.001 {
+                    c.check("C09.windows_c_mean", approx64(d.windows_c, ch_ah / a_h, 1e-4, 1e-5), || format!("windows_c {} want {}", d.windows_c, ch_ah / a_h));
+                }
+                match test {
+                    Some(t) => {
+                        c.check("C09.test.n50", d.n50 == t, || format!("n50 {} want test value {}", d.n50, t));
+                        if a_o > 0.001 && v > 0.0 {
+                            // reported wall permeability satisfies the same equation
+                            let back = 0.629 * (d.walls_c as f64 * a_o + ch_ah) / v;
+                            c.check("C09.test.walls_c_equation", (back - t as f64).abs() <= 1e-3 * (t as f64).abs() + 1e-4, || format!("0.629*(C_o*A_o+sum)/V = {} with reported C_o {} but n50_test = {}", back, d.walls_c, t));
+                            c.check("C09.test.walls_c_a", approx64(d.walls_c_a, d.walls_c as f64 * a_o, 1e-4, 1e-4), || format!("walls_c_a {}", d.walls_c_a));
+                        } else if a_o <= 0.001 {
+                            c.check("C09.test.zero_wall_area", d.walls_c == c_o, || format!("walls_c {} want C_o {}", d.walls_c, c_o));
+                        }
+                    }
+                    None => {
+                        c.check("C09.ref.n50", approx64(d.n50, n50_ref, 1e-4, 1e-6), || format!("n50 {} want {}", d.n50, n50_ref));
+                        c.check("C09.ref.walls_c", d.walls_c == c_o && approx64(d.walls_c_a, c_o as f64 * a_o, 1e-5, 1e-5), || format!("walls_c {} walls_c_a {}", d.walls_c, d.walls_c_a));
+                    }
+                }
+                if a_o > 0.0 || a_h > 0.0 {
+                    c.nontrivial(format!("{}|{:?}|{}|{:.3}|{:.3}|{:.3}", vol, test, c_o, a_o, a_h, ch_ah));
+                }
+                c.sample(|| format!("vol={} test={:?} C_o={} A_o={} A_h={} -> n50={} n50_ref={} walls_c={}", vol, test, c_o, a_o, a_h, d.n50, d.n50_ref, d.walls_c));
+            },
+        );
+    }
+
+    // ---- C10: q_sol;jul -------------------------------------------------------------------------------
+    const ORIENTS: [Orientation; 9] = [Orientation::N, Orientation::NE, Orientation::E, Orientation::SE, Orientation::S, Orientation::SW, Orientation::W, Orientation::NW, Orientation::HZ];
+
+    fn radtable() -> HashMap<Orientation, f32> {
+        // distinct primes: a wrong orientation lookup cannot cancel out
+        let vals = [23.0f32, 41.0, 67.0, 83.0, 97.0, 79.0, 61.0, 43.0, 131.0];
+        ORIENTS.iter().cloned().zip(vals.iter().cloned()).collect()
+    }
+
+    #[test]
+    fn n_c10_qsoljul() {
+        drive(
+            "C10.qsoljul",
+            "QSolJulData::from(&EnergyProps, table): 2 windows each over orientation {S,NE,HZ} x host boundary {EXTERIOR,GROUND,INTERIOR} x in/out x multiplier {1,2} x computed F_sh,obst {none,0.8} x override {none,0.6} x construction {present,missing}; A_ref 100; 9-entry irradiation table of distinct primes",
+            |c| {
+                let mut p = empty_props(globals());
+                p.wincons.insert(uid(0xD1), WinConsProps { g_glwi: 0.6, g_glshwi: 0.3, u_value: Some(1.5), c_100: 27.0, f_f: 0.25 });
+                let tab = radtable();
+                let mut desc = vec![];
+                let mut q_want = 0.0f64;
+                let mut a_want = 0.0f64;
+                let mut per_orient: HashMap<Orientation, (f64, f64, f64, f64, f64)> = HashMap::new(); // gains, a, ff*a, g*a, fsh*a
+                for i in 0..2u128 {
+                    let o = c.of(&[Orientation::S, Orientation::NE, Orientation::HZ]);
+                    let b = c.of(&[BoundaryType::EXTERIOR, BoundaryType::GROUND, BoundaryType::INTERIOR]);
+                    let tenv = c.flag();
+                    let m = c.of(&[1.0f32, 2.0]);
+                    let fsh = c.of(&[None, Some(0.8f32)]);
+                    let fov = c.of(&[None, Some(0.6f32)]);
+                    let has_cons = c.flag();
+                    let area = 1.5f32 + i as f32;
+                    let win = WinProps {
+                        cons: if has_cons { uid(0xD1) } else { uid(0xDE) },
+                        wall: uid(1 + i),
+                        orientation: o,
+                        tilt: if o == Orientation::HZ { Tilt::TOP } else { Tilt::SIDE },
+                        area,
+                        multiplier: m,
+                        bounds: b,
+                        is_tenv: tenv,
+                        u_value: Some(1.5),
+                        u_value_override: None,
+                        f_shobst: fsh,
+                        f_shobst_override: fov,
+                    };
+                    p.windows.insert(uid(11 + i), win);
+                    desc.push(format!("win{}: {:?} {:?} tenv={} m={} fsh={:?} ov={:?} cons={}", i, o, b, tenv, m, fsh, fov, has_cons));
+                    if tenv && (b == BoundaryType::EXTERIOR || b == BoundaryType::GROUND) {
+                        let f = fov.or(fsh).unwrap_or(1.0) as f64;
+                        let (g, ff) = if has_cons { (0.3f64, 0.25f64) } else { (0.77f64, 0.20f64) };
+                        let a = area as f64 * m as f64;
+                        let h = tab[&o] as f64;
+                        let gains = f * g * (1.0 - ff) * a * h;
+                        q_want += gains;
+                        a_want += a;
+                        let e = per_orient.entry(o).or_insert((0.0, 0.0, 0.0, 0.0, 0.0));
+                        e.0 += gains;
+                        e.1 += a;
+                        e.2 += ff * a;
+                        e.3 += g * a;
+                        e.4 += f * a;
+                    }
+                }
+                c.note(desc.join(" | "));
+                let d = QSolJulData::from(&p, &tab);
+                c.check("C10.gains", approx64(d.Q_soljul, q_want, 1e-4, 1e-5), || format!("Q_soljul {} want {}", d.Q_soljul, q_want));
+                c.check("C10.q", approx64(d.q_soljul, q_want / 100.0, 1e-4, 1e-6), || format!("q_soljul {} want {}", d.q_soljul, q_want / 100.0));
+                c.check("C10.area", approx64(d.a_wp, a_want, 1e-5, 1e-6), || format!("a_wp {} want {}", d.a_wp, a_want));
+                let sum_g: f32 = d.detail.values().map(|x| x.gains).sum();
+                let sum_a: f32 = d.detail.values().map(|x| x.a).sum();
+                c.check("C10.breakdown.adds_up", approx(sum_g, d.Q_soljul, 1e-4, 1e-5) && approx(sum_a, d.a_wp, 1e-4, 1e-5), || format!("sum gains {} vs {}, sum a {} vs {}", sum_g, d.Q_soljul, sum_a, d.a_wp));
+                c.check("C10.breakdown.orientations", d.detail.len() == per_orient.len(), || format!("{} orientation entries, want {}", d.detail.len(), per_orient.len()));
+                for (o, e) in &per_orient {
+                    match d.detail.get(o) {
+                        None => c.check("C10.breakdown.orientations", false, || format!("missing entry for {:?}", o)),
+                        Some(x) => {
+                            c.check("C10.breakdown.entry", approx64(x.gains, e.0, 1e-4, 1e-5) && approx64(x.a, e.1, 1e-5, 1e-6) && x.irradiance == tab[o], || format!("{:?}: gains {} want {}, a {} want {}, H {}", o, x.gains, e.0, x.a, e.1, x.irradiance));
+                            if e.1 > 0.0 {
+                                c.check("C10.means.orientation", approx64(x.f_f_mean, e.2 / e.1, 1e-4, 1e-6) && approx64(x.gglshwi_mean, e.3 / e.1, 1e-4, 1e-6) && approx64(x.fshobst_mean, e.4 / e.1, 1e-4, 1e-6), || format!("{:?}: means {} {} {} want {} {} {}", o, x.f_f_mean, x.gglshwi_mean, x.fshobst_mean, e.2 / e.1, e.3 / e.1, e.4 / e.1));
+                            }
+                        }
+                    }
+                }
+                if a_want > 0.0 {
+                    let tot = per_orient.values().fold((0.0, 0.0, 0.0), |acc, e| (acc.0 + e.2, acc.1 + e.3, acc.2 + e.4));
+                    let hmean: f64 = per_orient.iter().map(|(o, e)| tab[o] as f64 * e.1).sum::<f64>() / a_want;
+                    c.check("C10.means.global", approx64(d.f_f_mean, tot.0 / a_want, 1e-4, 1e-6) && approx64(d.gglshwi_mean, tot.1 / a_want, 1e-4, 1e-6) && approx64(d.fshobst_mean, tot.2 / a_want, 1e-4, 1e-6) && approx64(d.irradiance_mean, hmean, 1e-4, 1e-5), || {
+                        format!("global means ff {} g {} fsh {} H {} want {} {} {} {}", d.f_f_mean, d.gglshwi_mean, d.fshobst_mean, d.irradiance_mean, tot.0 / a_want, tot.1 / a_want, tot.2 / a_want, hmean)
+                    });
+                    c.nontrivial(desc.join("|"));
+                } else {
+                    // no window of the envelope in contact with air or ground: every reported figure is a finite number
+                    let all = [d.q_soljul, d.Q_soljul, d.a_wp, d.irradiance_mean, d.fshobst_mean, d.gglshwi_mean, d.f_f_mean];
+                    c.check("C10.no_window.finite", all.iter().all(|x| x.is_finite()), || format!("figures {:?}", all));
+                    c.check("C10.no_window.zero", d.Q_soljul == 0.0 && d.a_wp == 0.0 && d.detail.is_empty(), || format!("Q {} a {} detail {}", d.Q_soljul, d.a_wp, d.detail.len()));
+                }
+                c.sample(|| format!("{} -> Q={} q={} a_wp={}", desc.join(" | "), d.Q_soljul, d.q_soljul, d.a_wp));
+            },
+        );
+    }
+
+    // C10: the table the indicators use exists for every zone and class, and is non-negative
+    #[test]
+    fn n_c10_july_table() {
+        use crate::climatedata::{total_radiation_in_july_by_orientation, ClimateZone};
+        use std::convert::TryFrom;
+        drive("C10.table", "total_radiation_in_july_by_orientation for all 32 climate zones x 9 orientation classes", |c| {
+            let zi = c.pick(climate::CTE_CLIMATEZONES.len());
+            let zname = climate::CTE_CLIMATEZONES[zi];
+            let zone = ClimateZone::try_from(zname);
+            c.note(format!("zone {}", zname));
+            c.check("C10.table.zone_parses", zone.is_ok(), || format!("zone {} does not parse", zname));
+            if let Ok(z) = zone {
+                let t = total_radiation_in_july_by_orientation(&z);
+                c.check("C10.table.complete", t.len() == 9 && ORIENTS.iter().all(|o| t.contains_key(o)), || format!("zone {}: {} entries", zname, t.len()));
+                c.check("C10.table.nonneg", t.values().all(|v| v.is_finite() && *v >= 0.0), || format!("zone {}: {:?}", zname, t));
+                // a horizontal surface receives more July radiation than a north facade
+                if let (Some(h), Some(n)) = (t.get(&Orientation::HZ), t.get(&Orientation::N)) {
+                    c.check("C10.table.hz_gt_n", h > n, || format!("zone {}: HZ {} N {}", zname, h, n));
+                }
+                c.nontrivial(zname.to_string());
+                c.sample(|| format!("{} -> {:?}", zname, t));
+            }
+        });
+    }
 }
